@@ -144,6 +144,7 @@ func runC17(t *testing.T, rc *core.RunCtx) {
 		gaps[i] = tp.Range(1, 5)
 	}
 	syncEvery := tp.Range(2, 6)
+	allBackends := tp.Draw(8) == 0
 	concurrentReads := 0
 	if tp.Draw(3) == 0 {
 		concurrentReads = tp.Range(1, 4)
@@ -187,7 +188,9 @@ func runC17(t *testing.T, rc *core.RunCtx) {
 		}
 		backends = append(backends, &c17Backend{name: "memory", mem: mem, close: func() {}})
 		names := []string{which}
-		if rc.Tier == "thorough" {
+		// (all three persistent backends in one run only now and then: a badger
+		// instance per run is what a worker process can afford in memory)
+		if rc.Tier == "thorough" && allBackends {
 			names = []string{"bbolt", "badger", "gorm"}
 		}
 		for _, b := range names {
